@@ -35,7 +35,7 @@ import vlib
 from vlib import cz, cnat, cbool, clist, copt
 
 HEADER = ("From Coq Require Import List ZArith Bool.\nImport ListNotations.\n"
-          "From QV Require Import Model.C13 Model.C13_inst Model.C13_conf Model.C13_mix.\nLocal Open Scope Z_scope.\n")
+          "From QV Require Import Model.C13 Model.C13_inst Model.C13_conf Model.C13_mix Model.C13_gen.\nLocal Open Scope Z_scope.\n")
 TU = 64            # time unit of the scripted problems: 1/64
 EPS_EXP = 34       # mc_corr_eps = 2^-34 in the scripted Monte-Carlo problem
 
@@ -795,6 +795,206 @@ def k5_canon_model(v):
 
 
 # ======================================================================
+# map call sites: every back-end is the C14 machine called the modelled way
+# ======================================================================
+EXPECTED_MAP_CALLS = {
+    # (file, function): (task, values, reduce_func)
+    ("multitraj.py", "run"): ("self._run_one_traj", "seeds", "result.add"),
+    ("multitraj.py", "_run_mixed"): ("self._run_one_traj_mixed", "range(len(seeds))", "result.add"),
+    ("mcsolve.py", "_run_improved_sampling"): ("self._run_one_traj", "seeds", "result.add"),
+    ("mcsolve.py", "_run_improved_sampling_mixed#0"):
+        ("self._no_jump_simulation", "[state for state, _ in prepared_ics]", None),
+    ("mcsolve.py", "_run_improved_sampling_mixed#1"):
+        ("_unpack_arguments(self._run_one_traj_mixed, ('id', 'jump_prob_floor'))", "arguments",
+         "result.add"),
+}
+
+
+def read_map_calls():
+    """fail-closed reading of every `map_func(...)` call under qutip/solver: the
+    task, the values and the reducer handed to the map (the C14 machine is
+    what runs them, for serial / parallel / loky / mpi alike)"""
+    import ast
+    found = {}
+    sdir = os.path.join(vlib.REPO, "qutip", "solver")
+    for fn in sorted(os.listdir(sdir)):
+        if not fn.endswith(".py") or fn == "parallel.py":
+            continue
+        src = open(os.path.join(sdir, fn)).read()
+        if "map_func(" not in src:
+            continue
+        tree = ast.parse(src)
+        for fdef in ast.walk(tree):
+            if not isinstance(fdef, ast.FunctionDef):
+                continue
+            calls = [c for c in ast.walk(fdef) if isinstance(c, ast.Call)
+                     and isinstance(c.func, ast.Name) and c.func.id == "map_func"]
+            calls.sort(key=lambda c: c.lineno)
+            for k, c in enumerate(calls):
+                if len(c.args) < 2:
+                    raise ValueError("map_func call with fewer than 2 positional arguments")
+                red = [kw.value for kw in c.keywords if kw.arg == "reduce_func"]
+                if len(c.args) > 3 or any(kw.arg is None for kw in c.keywords):
+                    raise ValueError("map_func call outside the supported shape")
+                key = (fn, fdef.name if len(calls) == 1 else "%s#%d" % (fdef.name, k))
+                found[key] = (ast.unparse(c.args[0]), ast.unparse(c.args[1]),
+                              ast.unparse(red[0]) if red else None)
+    return found
+
+
+def check_map_calls(ctx):
+    try:
+        found = read_map_calls()
+        ok = found == EXPECTED_MAP_CALLS
+        detail = {"found": {"%s:%s" % k: v for k, v in found.items()}}
+    except Exception as e:
+        ok, detail = False, {"error": repr(e)[:300]}
+    ctx.add_obligation("map-call-sites: task / values / reduce_func=result.add as modelled", ok)
+    import qutip.solver.parallel as par
+    import qutip.solver.multitraj as mt
+    want = {"parallel_map": par.parallel_map, "parallel": par.parallel_map,
+            "serial_map": par.serial_map, "serial": par.serial_map,
+            "loky": par.loky_pmap, "mpi": par.mpi_pmap}
+    ok2 = dict(par._maps) == want and mt._get_map is par._get_map and \
+        all(par._get_map({"map": k, "mpi_options": {}})[0] is v for k, v in want.items())
+    ctx.add_obligation("map back-ends: _maps / _get_map select serial_map, parallel_map, "
+                       "loky_pmap, mpi_pmap (all _generic_pmap wrappers, C14)", ok2)
+    ctx.cov.setdefault("input_distribution", {})
+    if not ok:
+        ctx.violation("tx:map-call-sites", "changed",
+                      "a map_func(...) call under qutip/solver is not one of the modelled ones "
+                      "(task, values, reduce_func=result.add): the ensemble theorems no longer "
+                      "describe it", detail, found_input=False)
+    if not ok2:
+        ctx.violation("tx:map-back-ends", "changed",
+                      "parallel._maps / _get_map no longer select the four modelled map functions",
+                      {"maps": {k: getattr(v, "__name__", str(v)) for k, v in par._maps.items()}},
+                      found_input=False)
+
+
+# ======================================================================
+# K6  which generator object a trajectory uses (Model/C13_gen.v)
+# ======================================================================
+BITGENS = [None, "MT19937", "PCG64", "PCG64DXSM", "Philox", "SFC64"]
+
+
+def _steq(a, b):
+    if isinstance(a, dict):
+        return isinstance(b, dict) and a.keys() == b.keys() and all(_steq(a[k], b[k]) for k in a)
+    if isinstance(a, np.ndarray):
+        return isinstance(b, np.ndarray) and np.array_equal(a, b)
+    return a == b
+
+
+def k6_case(rng):
+    nobj = rng.choice([0, 1, 1, 2])
+    n = rng.choice([1, 2, 3, 4])
+    items = []
+    for _ in range(max(0, n + rng.choice([-1, 0, 0, 0, 1]))):
+        r = rng.random()
+        if nobj and r < 0.45:
+            items.append(["g", rng.randrange(nobj)])
+        elif r < 0.7:
+            items.append(["i", rng.randrange(1000)])
+        else:
+            items.append(["s", rng.randrange(1000),
+                          [rng.randrange(4) for _k in range(rng.choice([0, 1, 2]))], rng.randrange(3)])
+    return {"heap": [rng.choice([0, 0, 3, 7]) for _ in range(nobj)], "items": items, "ntraj": n,
+            "bit": rng.choice([0, 0, 0, 0, 1, 2, 3, 4, 5]), "forked": rng.random() < 0.4}
+
+
+def k6_impl(case):
+    import qutip as qt
+    from numpy.random import default_rng, SeedSequence
+    a = qt.destroy(2)
+    name = BITGENS[case["bit"]]
+    solver = qt.MCSolver(a.dag() * a, [a], options={
+        "progress_bar": "", "method": "diag", "keep_runs_results": True, "bitgenerator": name})
+    objs, refs = [], []
+    for r, p in enumerate(case["heap"]):
+        g = default_rng(100 + r)
+        g.random(p)
+        objs.append(g)
+        ref = default_rng(100 + r)
+        st = [copy.deepcopy(ref.bit_generator.state)]
+        for _ in range(400):
+            ref.random()
+            st.append(copy.deepcopy(ref.bit_generator.state))
+        refs.append(st)
+    owner = {id(g): r for r, g in enumerate(objs)}
+
+    def position(g, r):
+        cur = g.bit_generator.state
+        for p, st in enumerate(refs[r]):
+            if _steq(st, cur):
+                return p
+        return -1
+    seeds = [objs[it[1]] if it[0] == "g" else it[1] if it[0] == "i" else _mk_ss(it[1], it[2], it[3])
+             for it in case["items"]]
+    log = []
+    real = type(solver)._get_generator
+
+    def rec(seed):
+        g = real(solver, seed)
+        if id(g) in owner:
+            log.append([1, owner[id(g)], 0, (), position(g, owner[id(g)]), g])
+        else:
+            if name is None:
+                exp = default_rng(copy.deepcopy(seed))
+            else:
+                exp = np.random.Generator(getattr(np.random, name)(copy.deepcopy(seed)))
+            ok = type(g.bit_generator) is type(exp.bit_generator) and \
+                _steq(g.bit_generator.state, exp.bit_generator.state)
+            e, k = _sid(seed)
+            log.append([0, case["bit"], e, k, 0 if ok else -1, g])
+        return g
+    solver._get_generator = rec
+    dr = []
+
+    def kmap(task, values, task_args=None, task_kwargs=None, reduce_func=None, **kw):
+        for v in values:
+            if case["forked"] and id(v) in owner:
+                c = copy.deepcopy(v)             # pickled at submission
+                owner[id(c)] = owner[id(v)]
+                v = c
+            res = task(v, *(task_args or ()), **(task_kwargs or {}))
+            ent = log[-1]
+            dr.append(position(ent[5], ent[1]) - ent[4] if ent[0] == 1 else 0)
+            reduce_func(res)
+    try:
+        with patched_map(kmap):
+            solver.run(qt.basis(2, 1), [0, 0.5, 1.0], ntraj=case["ntraj"], seeds=seeds)
+        out = ("ok", [tuple(e[:5]) for e in log])
+    except ValueError:
+        out = ("ValueError",)
+    except TypeError:
+        out = ("TypeError",)
+    return out, dr
+
+
+def k6_expr(case, dr):
+    def item(it):
+        if it[0] == "g":
+            return "GObj %s" % cnat(it[1])
+        if it[0] == "i":
+            return "GInt %s" % cz(it[1])
+        return "GSeq %s" % _cq_sseq(it[1], it[2], it[3])
+    bit = "None" if case["bit"] == 0 else "(Some %s)" % cnat(case["bit"] - 1)
+    return "gen_observe %s %s %s %s %s %s" % (
+        bit, clist(dr + [0] * 8, cnat), clist(case["heap"], cnat), clist(case["items"], item),
+        cnat(case["ntraj"]), cbool(case["forked"]))
+
+
+def k6_canon_model(v):
+    if v is None:
+        return ("ValueError",)
+    inner = v[1]
+    if inner is None:
+        return ("TypeError",)
+    return ("ok", [(f, b, e, tuple(k), p) for (f, b, e, k, p) in inner[1]])
+
+
+# ======================================================================
 # oracle on the real solvers
 # ======================================================================
 def _r_a(t):
@@ -871,6 +1071,7 @@ def gen_problem(rng, kind):
         spec["tlist"] = [i * stepn * dt for i in range(n)]
         spec["meas"] = rng.choice(["", "start", "end", "middle"])
         spec["extra_c"] = kind == "sme" and rng.random() < 0.4
+    spec["bitgen"] = rng.choice(BITGENS[1:]) if rng.random() < 0.15 else None
     # coefficients that depend on `args` (value at construction: garg)
     spec["garg"] = None
     if rng.random() < (0.7 if kind == "nm" else 0.4):
@@ -951,6 +1152,8 @@ def build(spec, **over):
     else:
         base["dt"] = 2.0 ** (-spec["dtexp"])
         base["store_measurement"] = spec["meas"]
+    if spec.get("bitgen"):
+        base["bitgenerator"] = spec["bitgen"]
     base.update(over.get("opts") or {})
 
     def mk(extra=None):
@@ -1446,8 +1649,13 @@ class Oracle:
             g = real_get(seed)
             if seed is None:                    # the no-jump trajectory: no draw at all
                 return Proxy(g, None)
-            if g.bit_generator.state != default_rng(copy.deepcopy(seed)).bit_generator.state:
-                self.bad(spec, "generator", "generator-is-not-default_rng(seed)")
+            if spec.get("bitgen"):
+                exp = np.random.Generator(getattr(np.random, spec["bitgen"])(copy.deepcopy(seed)))
+            else:
+                exp = default_rng(copy.deepcopy(seed))
+            if type(g.bit_generator) is not type(exp.bit_generator) or \
+                    not _steq(g.bit_generator.state, exp.bit_generator.state):
+                self.bad(spec, "generator", "generator-is-not-the-configured-class-seeded-by-seed")
             return Proxy(g, _sid(seed))
         solver._get_generator = get
         res = P.run(solver, spec["ntraj"], spec["seed"])
@@ -1492,7 +1700,11 @@ class Oracle:
                                  {"rows": rows, "steps": stepn * (len(P.tlist) - 1)})
                         return
                 # the recorded increments are the stream of the seed and nothing else
-                full = default_rng(copy.deepcopy(s)).normal(0, np.sqrt(dt), size=(rows,) + sizes[0][1:])
+                if spec.get("bitgen"):
+                    gen0 = np.random.Generator(getattr(np.random, spec["bitgen"])(copy.deepcopy(s)))
+                else:
+                    gen0 = default_rng(copy.deepcopy(s))
+                full = gen0.normal(0, np.sqrt(dt), size=(rows,) + sizes[0][1:])
                 tr = res.trajectories[k]
                 for i in range(len(P.tlist) - 1):
                     want = np.sum(full[i * stepn:(i + 1) * stepn, 0, :], axis=0)
@@ -1662,12 +1874,14 @@ def run(ctx):
             orc.one_problem(gen_problem(r2, ["mc", "sse", "sme", "nm"][i % 4]),
                             ["scripted", "history", "nokeep", "permuted"])
 
-    vlib.standard_proof_step(ctx, ["Props/C13.vo", "Props/C13_conf.vo", "Props/C13_mix.vo"],
-                             ["Props/C13.v", "Props/C13_conf.v", "Props/C13_mix.v"], search)
+    vlib.standard_proof_step(ctx, ["Props/C13.vo", "Props/C13_conf.vo", "Props/C13_mix.vo", "Props/C13_gen.vo"],
+                             ["Props/C13.v", "Props/C13_conf.v", "Props/C13_mix.v", "Props/C13_gen.v"],
+                             search)
 
+    check_map_calls(ctx)
     dist = {}
     # ---------------------------------------------------------------- corpus
-    corpus = {"k1": [], "k2": [], "k3": [], "k4": [], "k5": [], "oracle": []}
+    corpus = {"k1": [], "k2": [], "k3": [], "k4": [], "k5": [], "k6": [], "oracle": []}
     cdir = os.path.join(vlib.VERIF, "corpus", "C13")
     if os.path.isdir(cdir):
         for f in sorted(os.listdir(cdir)):
@@ -1719,22 +1933,33 @@ def run(ctx):
         except Exception as e:
             i5.append(("EXC", repr(e)[:200]))
     e5 = [k5_expr(c) for c in c5]
-    ctx.log("implementation traces: K1 %d, K2 %d, K3 %d, K4 %d, K5 %d" % (
-        len(c1), len(c2), len(c3), len(c4), len(c5)))
+    # -------------------------------------------------------------------- K6
+    n6 = 80 if ctx.quick else 800
+    c6 = list(corpus["k6"]) + [k6_case(rng) for _ in range(n6)]
+    i6 = []
+    for c in c6:
+        try:
+            i6.append(k6_impl(c))
+        except Exception as e:
+            i6.append((("EXC", repr(e)[:200]), []))
+    e6 = [k6_expr(c, dr) for c, (_, dr) in zip(c6, i6)]
+    ctx.log("implementation traces: K1 %d, K2 %d, K3 %d, K4 %d, K5 %d, K6 %d" % (
+        len(c1), len(c2), len(c3), len(c4), len(c5), len(c6)))
     try:
-        vals = vlib.coq_eval_values("cases_C13", HEADER, e1 + e2 + e3 + e4 + e5, chunk=150)
+        vals = vlib.coq_eval_values("cases_C13", HEADER, e1 + e2 + e3 + e4 + e5 + e6, chunk=150)
     except RuntimeError as e:
         ctx.violation("corr:C13:model-eval", "coqc", "model evaluation failed",
                       {"log": str(e)}, found_input=False)
         vals = None
-    mism = {"k1": 0, "k2": 0, "k3": 0, "k4": 0, "k5": 0}
+    mism = {"k1": 0, "k2": 0, "k3": 0, "k4": 0, "k5": 0, "k6": 0}
     if vals is not None:
         v1, v2 = vals[:len(e1)], vals[len(e1):len(e1) + len(e2)]
         v3t = vals[len(e1) + len(e2):len(e1) + len(e2) + len(c3)]
         v3f = vals[len(e1) + len(e2) + len(c3):len(e1) + len(e2) + 2 * len(c3)]
         v4t = vals[len(e1) + len(e2) + len(e3):len(e1) + len(e2) + len(e3) + len(c4)]
         v4f = vals[len(e1) + len(e2) + len(e3) + len(c4):len(e1) + len(e2) + len(e3) + len(e4)]
-        v5 = vals[len(e1) + len(e2) + len(e3) + len(e4):]
+        v5 = vals[len(e1) + len(e2) + len(e3) + len(e4):len(e1) + len(e2) + len(e3) + len(e4) + len(e5)]
+        v6 = vals[len(e1) + len(e2) + len(e3) + len(e4) + len(e5):]
         for c, (ent0, im), v in zip(c1, i1, v1):
             model = k1_canon_model(vlib.parse_coq_value(v))
             imc = [((o[0],) + tuple(
@@ -1830,6 +2055,20 @@ def run(ctx):
                               "seed / member-state assignment of a mixed initial ensemble "
                               "differs from the model",
                               {"tie": "k5", "case": c, "impl": im, "model": model})
+        for c, (im, dr), v in zip(c6, i6, v6):
+            model = k6_canon_model(vlib.parse_coq_value(v))
+            ctx.count_case(("k6", json.dumps(c, sort_keys=True)), nontrivial=True)
+            ctx.cov["traces_validated_against_impl"] += 1
+            dist["k6/bit/%s" % BITGENS[c["bit"]]] = dist.get("k6/bit/%s" % BITGENS[c["bit"]], 0) + 1
+            dist["k6/object-items"] = dist.get("k6/object-items", 0) + sum(
+                1 for it in c["items"] if it[0] == "g")
+            dist["k6/" + im[0]] = dist.get("k6/" + im[0], 0) + 1
+            if model != im:
+                mism["k6"] += 1
+                ctx.violation("corr:multitraj._read_seed/_get_generator", "model-differs",
+                              "the generator object (class, seed, starting position, sharing) a "
+                              "trajectory uses differs from the model",
+                              {"tie": "k6", "case": c, "impl": im, "model": model, "draws": dr})
     ctx.log("correspondence mismatches: %r" % mism)
     ctx.sample({"k1_case": c1[-1], "impl": i1[-1][1]})
     ctx.sample({"k2_case": c2[-1], "impl": i2[-1]})
@@ -1876,6 +2115,12 @@ def replay(ctx, payload):
         im = k3_impl(d["case"])
         v = vlib.coq_eval_values("replay_C13", HEADER, [k3_expr(d["case"], True)])
         if k3_canon_model(vlib.parse_coq_value(v[0]), d["case"]["nsc"]) != im:
+            ctx.violation(payload["site"], payload["signature"], payload["what"], d)
+        return
+    if d.get("tie") == "k6":
+        im, dr = k6_impl(d["case"])
+        v = vlib.coq_eval_values("replay_C13", HEADER, [k6_expr(d["case"], dr)])
+        if k6_canon_model(vlib.parse_coq_value(v[0])) != im:
             ctx.violation(payload["site"], payload["signature"], payload["what"], d)
         return
     if d.get("tie") == "k5":
